@@ -1,5 +1,5 @@
 SPECIFICATION MCSpec
-CONSTANTS MaxSteps = 6
+CONSTANTS MaxSteps = 7
           Focus = "hash"
           Deep = TRUE
 INVARIANTS HashOwned Written
